@@ -884,4 +884,62 @@ theorem integral_mergeLoop (ds : List (Dist Rat)) (acc : Dist Rat) (g : Rat → 
   | cons d t ih =>
     simp only [mergeLoop, ih, integral_mergeInto, sumIntegrals, List.map_cons, List.sum_cons]; ring
 
+/-- the scaling step multiplies every integral by one constant -/
+theorem scale_const (d out : Dist Rat) (a : Rat) (s : Bool) (h : scaleAbundances d a s none = .ok out) :
+    ∃ c : Rat, ∀ g : Rat → Rat, integral out g = c * integral d g := by
+  cases s with
+  | false =>
+    have := scaleAbundances_max d out a h
+    subst this
+    exact ⟨a, fun g => integral_scale d a g⟩
+  | true =>
+    unfold scaleAbundances at h
+    simp only [if_true] at h
+    by_cases ht : sumAb d = 0
+    · simp only [ht, if_true] at h
+      cases d with
+      | nil => simp [Except.map] at h; subst h; exact ⟨0, fun g => by simp⟩
+      | cons q r => simp [Except.map] at h
+    · simp only [ht, if_false, Except.map, Except.ok.injEq] at h
+      subst h
+      refine ⟨a / sumAb d, fun g => ?_⟩
+      rw [integral_scale, integral_div]; ring
+
+
+open PeptVerif.Gen.C14 in
+theorem resolve_mem (o : Opts) (f : List (Key × Int)) (L : List (Dist Rat × Nat)) (h : resolve o f = some L) :
+    ∀ x ∈ L, ∃ q ∈ f, ∃ e, lookupEntry q.1 = some e ∧ x.1 = isosOf o e := by
+  induction f generalizing L with
+  | nil => simp only [resolve, Option.some.injEq] at h; subst h; intro x hx; simp at hx
+  | cons q t ih =>
+    obtain ⟨k, c⟩ := q
+    simp only [resolve] at h
+    cases hk : lookupEntry k with
+    | none => simp [hk] at h
+    | some e =>
+      cases hr : resolve o t with
+      | none => simp [hk, hr] at h
+      | some r =>
+        simp only [hk, hr, Option.some.injEq] at h
+        subst h
+        intro x hx
+        rcases List.mem_cons.1 hx with h1 | h1
+        · subst h1; exact ⟨(k, c), List.mem_cons_self .., e, hk, rfl⟩
+        · obtain ⟨q, hq, e', he', hx'⟩ := ih r hr x h1
+          exact ⟨q, List.mem_cons_of_mem _ hq, e', he', hx'⟩
+
+open PeptVerif.Gen.C14 in
+theorem total_massIsotopes (e : Entry) :
+    total (massIsotopes e) = ((e.2.2.map (·.2.2)).sum : Nat) / (abScale : Rat) := by
+  unfold massIsotopes
+  induction e.2.2 with
+  | nil => simp [total]
+  | cons i t ih =>
+    have : total (List.map (fun i => (massOf i.2.1, abOf i.2.2)) (i :: t)) =
+        abOf i.2.2 + total (List.map (fun i => (massOf i.2.1, abOf i.2.2)) t) := by simp [total]
+    rw [this, ih]
+    simp only [List.map_cons, List.sum_cons, abOf]
+    push_cast; ring
+
+
 end Isotope
